@@ -40,13 +40,13 @@ type Value struct {
 	RawPos bool
 }
 
-func S(s string) *Value            { return &Value{Kind: String, Str: s} }
-func N(lit string) *Value          { return &Value{Kind: Number, Num: lit} }
-func Bv(b bool) *Value             { return &Value{Kind: Bool, B: b} }
-func Nul() *Value                  { return &Value{Kind: Null} }
-func Arr(e ...*Value) *Value       { return &Value{Kind: Array, Elems: e} }
-func Obj(m ...Member) *Value       { return &Value{Kind: Object, Members: m} }
-func M(k string, v *Value) Member  { return Member{k, v} }
+func S(s string) *Value           { return &Value{Kind: String, Str: s} }
+func N(lit string) *Value         { return &Value{Kind: Number, Num: lit} }
+func Bv(b bool) *Value            { return &Value{Kind: Bool, B: b} }
+func Nul() *Value                 { return &Value{Kind: Null} }
+func Arr(e ...*Value) *Value      { return &Value{Kind: Array, Elems: e} }
+func Obj(m ...Member) *Value      { return &Value{Kind: Object, Members: m} }
+func M(k string, v *Value) Member { return Member{k, v} }
 
 func (v *Value) Get(key string) *Value {
 	if v == nil || v.Kind != Object {
@@ -295,10 +295,10 @@ func (p *parser) str() (string, error) {
 type EscapeMode int
 
 const (
-	EscMinimal   EscapeMode = iota // only what JSON requires
-	EscUnicode                     // every non-ASCII rune as \uXXXX (surrogate pairs for astral)
-	EscAllFirst                    // additionally the first ASCII letter of every string as \u00XX
-	EscSolidus                     // "/" written as "\/"
+	EscMinimal  EscapeMode = iota // only what JSON requires
+	EscUnicode                    // every non-ASCII rune as \uXXXX (surrogate pairs for astral)
+	EscAllFirst                   // additionally the first ASCII letter of every string as \u00XX
+	EscSolidus                    // "/" written as "\/"
 )
 
 type EncOpts struct {
@@ -664,7 +664,7 @@ func ApplyFault(root *Value, p Path, fault string, k int) (*Value, bool) {
 				return nil, false
 			}
 			rest := append([]*Value{}, val.Elems[1:]...)
-			val.Elems = append(append([]*Value{val.Elems[0], Nul(), Nul(), Nul()}, rest...))
+			val.Elems = append([]*Value{val.Elems[0], Nul(), Nul(), Nul()}, rest...)
 		default:
 			if len(val.Elems) < 2 {
 				val.Elems = []*Value{Nul(), Nul()}
